@@ -83,7 +83,7 @@ def run(ctx, n_bases=None, rng_name="main", max_seconds=None):
         ctx.hist("base.class", "odd" if odd else "plain")
         ctx.hist("base.tables", len(a["tables"]))
         for desc, b in G.candidate_mutations(rng, a, odd):
-            if desc["m"] in ("changeFKOptions", "changeTypeArgs", "swapNamedKind"):
+            if desc["m"] in ("changeFKOptions", "changeTypeArgs", "swapNamedKind", "addIndexedColumn"):
                 continue  # edits for C06 pairs (two ops, or not a family change): not catalogue mutations
             K.run_mutation(ctx, a, desc, b, pending, rng)
         if i < 2:
